@@ -118,9 +118,11 @@ func calcExpirationDate(b bpv7.Bundle) time.Time {
 
 // bundlePartPath returns a path for a Bundle or, together with its payload's length, for a fragment.
 func bundlePartPath(id bpv7.BundleID, payloadLength uint64, storagePath string) string {
-	name := id.String()
+	// A source's endpoint might itself end in "-<number>-<number>". The leading word keeps the name of a whole bundle
+	// apart from the one of a fragment, whose ID and payload length might otherwise spell the very same string.
+	name := fmt.Sprintf("bundle %v", id)
 	if id.IsFragment {
-		name = fmt.Sprintf("%s-%d", name, payloadLength)
+		name = fmt.Sprintf("fragment %v-%d", id, payloadLength)
 	}
 
 	f := fmt.Sprintf("%x", sha256.Sum256([]byte(name)))
